@@ -642,7 +642,9 @@ func (x *Ctx) decimalPointAccounting(r *core.Result, g, h *core.RuleStat) {
 				}
 				switch {
 				case !found:
-					h.OK(1) // no saturation at all (overflow of the accumulator is C10's business)
+					// no guard on the accumulator at all: e*10+d wraps after 19 digits (10 on a 32-bit platform) and the
+					// wrapped exponent moves the decimal point somewhere arbitrary
+					r.Fail(h, strings.TrimSuffix(key, "saturation")+"unguarded", w.Pos(mulv.Pos()), "the exponent accumulator is multiplied by ten without any bound on its current value: a long run of exponent digits makes it wrap, and a literal that must overflow (or underflow) is read as an arbitrary finite number")
 				case guardConst:
 					r.Fail(h, key, w.Pos(mulv.Pos()), "the exponent accumulator saturates at a constant, but the decimal point it is added to can be len(data) places away: for a literal longer than that bound whose exponent cancels its length (0.000…1e100001 with 100000 zeros is 1) the result is 0 or an overflow error instead of the nearest float64")
 				default:
